@@ -9,20 +9,92 @@ import Edn.Proofs.Number
 
 namespace Edn.Proofs
 open Edn.Model
+open Edn.Proofs.NumInt (dval_le_nine digitValue_lt)
 
 /-- the float mantissa accumulator (`int64_t mantissa`) stays below 10^18 < 2^63 -/
 theorem accDigits_bound (exp : Bool) : ∀ (s : Bytes) (m n : Nat), m < 10 ^ (min n 18) →
     (accDigits exp m n s).1 < 10 ^ 18 := by
-  sorry
+  intro s
+  induction s with
+  | nil =>
+    intro m n h
+    rw [accDigits]
+    exact Nat.lt_of_lt_of_le h (Nat.pow_le_pow_right (by decide) (Nat.min_le_right _ _))
+  | cons c cs ih =>
+    intro m n h
+    rw [accDigits]
+    split
+    · exact ih m n h
+    · split
+      · rename_i h9
+        apply ih
+        have hd := dval_le_nine h9
+        by_cases hn : n < 18
+        · rw [if_pos hn]
+          have e1 : min n 18 = n := Nat.min_eq_left (by omega)
+          have e2 : min (n + 1) 18 = n + 1 := Nat.min_eq_left (by omega)
+          rw [e1] at h
+          rw [e2, Nat.pow_succ]
+          omega
+        · rw [if_neg hn]
+          have e1 : min n 18 = 18 := Nat.min_eq_right (by omega)
+          have e2 : min (n + 1) 18 = 18 := Nat.min_eq_right (by omega)
+          rw [e1] at h
+          rw [e2]
+          exact h
+      · exact Nat.lt_of_lt_of_le h (Nat.pow_le_pow_right (by decide) (Nat.min_le_right _ _))
 
 /-- the exponent accumulator (`int64_t exp_value`) never exceeds 10009 -/
 theorem accExp_bound (exp : Bool) : ∀ (s : Bytes) (v : Nat), v ≤ 1000 → accExp exp v s ≤ 10009 := by
-  sorry
+  intro s
+  induction s with
+  | nil => intro v h; rw [accExp]; omega
+  | cons c cs ih =>
+    intro v h
+    rw [accExp]
+    split
+    · exact ih v h
+    · split
+      · simp only []
+        split
+        · omega
+        · apply ih; omega
+      · omega
 
 /-- the radix prefix accumulator (`int radix_val`) never exceeds 369 -/
 theorem radixPrefixValue_bound : ∀ (s : Bytes) (v : Nat), v ≤ 369 → (∀ c ∈ s, is09 c = true) →
     radixPrefixValue v s ≤ 369 := by
-  sorry
+  intro s
+  induction s with
+  | nil => intro v h _; rw [radixPrefixValue]; exact h
+  | cons c cs ih =>
+    intro v h hall
+    rw [radixPrefixValue]
+    apply ih
+    · have hd := dval_le_nine (hall c (List.mem_cons_self))
+      split <;> omega
+    · intro x hx; exact hall x (List.mem_cons_of_mem _ hx)
+
+/-- the cutoff / cutlim test guarantees that the next accumulator value is within `maxVal` -/
+theorem cutoff_step {radix cutoff cutlim maxVal v d : Nat}
+    (hc : cutoff = maxVal / radix) (hl : cutlim = maxVal % radix) (hd : d < radix)
+    (h1 : ¬ v > cutoff) (h2 : ¬ (v = cutoff ∧ d > cutlim)) : v * radix + d ≤ maxVal := by
+  have hdm := Nat.div_add_mod maxVal radix
+  rw [← hc, ← hl] at hdm
+  rw [Nat.mul_comm] at hdm
+  by_cases hv : v = cutoff
+  · subst hv
+    have : d ≤ cutlim := by
+      apply Nat.le_of_not_gt; intro hgt; exact h2 ⟨rfl, hgt⟩
+    omega
+  · have hlt : v + 1 ≤ cutoff := by omega
+    have := Nat.mul_le_mul_right radix hlt
+    rw [Nat.add_mul] at this
+    omega
+
+theorem w64_of_le {x maxVal : Nat} (hmax : maxVal ≤ 9223372036854775808) (h : x ≤ maxVal) : w64 x = x := by
+  unfold w64 two64
+  exact Nat.mod_eq_of_lt (by omega)
 
 /-- the 64-bit accumulator of `parse_int64_from_buffer` never wraps: in every loop the value
     before reduction modulo 2^64 is already below 2^64 (so `w64` is the identity wherever the
@@ -30,21 +102,177 @@ theorem radixPrefixValue_bound : ∀ (s : Bytes) (v : Nat), v ≤ 369 → (∀ c
 theorem scalarDigits_no_wrap (exp : Bool) (radix cutoff cutlim maxVal : Nat) (hr : 2 ≤ radix ∧ radix ≤ 36)
     (hmax : maxVal ≤ 9223372036854775808) (hc : cutoff = maxVal / radix) (hl : cutlim = maxVal % radix) :
     ∀ (s : Bytes) (v : Nat), v ≤ maxVal → ∀ r, scalarDigits exp radix cutoff cutlim v s = some r → r ≤ maxVal := by
-  sorry
+  intro s
+  induction s with
+  | nil =>
+    intro v hv r h
+    rw [scalarDigits] at h
+    cases h; exact hv
+  | cons c cs ih =>
+    intro v hv r h
+    rw [scalarDigits] at h
+    split at h
+    · exact ih v hv r h
+    · cases hdv : digitValue c radix with
+      | none =>
+        rw [hdv] at h
+        cases h; exact hv
+      | some d =>
+        rw [hdv] at h
+        simp only [] at h
+        split at h
+        · cases h
+        · rename_i hno
+          simp only [Bool.or_eq_true, decide_eq_true_eq, Bool.and_eq_true, beq_iff_eq, not_or] at hno
+          have hstep := cutoff_step hc hl (digitValue_lt hdv) hno.1 hno.2
+          rw [w64_of_le hmax hstep] at h
+          exact ih _ hstep r h
 
 theorem scalarDigits10_no_wrap (exp : Bool) (cutoff cutlim maxVal : Nat)
     (hmax : maxVal ≤ 9223372036854775808) (hc : cutoff = maxVal / 10) (hl : cutlim = maxVal % 10) :
     ∀ (s : Bytes) (v : Nat), v ≤ maxVal → ∀ r, scalarDigits10 exp cutoff cutlim v s = some r → r ≤ maxVal := by
-  sorry
+  intro s
+  induction s with
+  | nil =>
+    intro v hv r h
+    rw [scalarDigits10] at h
+    cases h; exact hv
+  | cons c cs ih =>
+    intro v hv r h
+    rw [scalarDigits10] at h
+    split at h
+    · exact ih v hv r h
+    · split at h
+      · cases h; exact hv
+      · rename_i h9
+        simp only [Bool.not_eq_true, Bool.not_eq_false'] at h9
+        simp only [] at h
+        split at h
+        · cases h
+        · rename_i hno
+          simp only [Bool.or_eq_true, decide_eq_true_eq, Bool.and_eq_true, beq_iff_eq, not_or] at hno
+          have hd : dval c < 10 := by have := dval_le_nine h9; omega
+          have hstep := cutoff_step hc hl hd hno.1 hno.2
+          rw [w64_of_le hmax hstep] at h
+          exact ih _ hstep r h
 
 theorem swarLoop_no_wrap (maxVal : Nat) (hmax : maxVal ≤ 9223372036854775808) :
     ∀ (f v : Nat) (s : Bytes), v ≤ maxVal → ∀ r rest, swarLoop maxVal f v s = some (r, rest) → r ≤ maxVal := by
-  sorry
+  intro f
+  induction f with
+  | zero =>
+    intro v s hv r rest h
+    rw [swarLoop] at h
+    cases h; exact hv
+  | succ f ih =>
+    intro v s hv r rest h
+    rw [swarLoop] at h
+    by_cases h8 : 8 ≤ s.length
+    · rw [if_pos h8] at h
+      simp only [] at h
+      by_cases hf : eightDigitsFast (load64le s) = true
+      · rw [if_pos hf] at h
+        by_cases h1 : v > maxVal / 100000000
+        · rw [if_pos h1] at h; cases h
+        · rw [if_neg h1] at h
+          by_cases h2 : w64 (v * 100000000 + (parseEightDigits (load64le s)).toNat) < v
+          · rw [if_pos h2] at h; cases h
+          · rw [if_neg h2] at h
+            by_cases h3 : w64 (v * 100000000 + (parseEightDigits (load64le s)).toNat) > maxVal
+            · rw [if_pos h3] at h; cases h
+            · rw [if_neg h3] at h
+              exact ih _ _ (by omega) r rest h
+      · rw [if_neg hf] at h
+        cases h; exact hv
+    · rw [if_neg h8] at h
+      cases h; exact hv
+
+/-- the unwrapped SWAR step value is below 2^64, so `w64` is the identity in `swarLoop` -/
+theorem swarLoop_step_lt (maxVal v eight : Nat) (hmax : maxVal ≤ 9223372036854775808)
+    (he : eight < 100000000) (hv : ¬ v > maxVal / 100000000) :
+    w64 (v * 100000000 + eight) = v * 100000000 + eight := by
+  unfold w64 two64
+  apply Nat.mod_eq_of_lt
+  have : maxVal / 100000000 ≤ 9223372036854775808 / 100000000 := Nat.div_le_div_right hmax
+  omega
+
+theorem fastSmall_bound (exp : Bool) : ∀ (s : Bytes) (v : Nat) (moved : Bool),
+    (fastSmall exp v moved s).1 < (v + 1) * 10 ^ s.length := by
+  intro s
+  induction s with
+  | nil => intro v moved; rw [fastSmall]; simp
+  | cons c cs ih =>
+    intro v moved
+    rw [fastSmall]
+    have hpos : 0 < 10 ^ cs.length := Nat.pow_pos (by decide)
+    simp only [List.length_cons, Nat.pow_succ]
+    split
+    · have := ih v true
+      have h2 : (v + 1) * 10 ^ cs.length ≤ (v + 1) * (10 ^ cs.length * 10) := by
+        apply Nat.mul_le_mul_left; omega
+      omega
+    · split
+      · have h2 : (v + 1) * 1 ≤ (v + 1) * (10 ^ cs.length * 10) := by
+          apply Nat.mul_le_mul_left; omega
+        simp only []
+        omega
+      · rename_i h9
+        simp only [Bool.not_eq_true, Bool.not_eq_false'] at h9
+        have hd := dval_le_nine h9
+        have := ih (v * 10 + dval c) true
+        have h2 : (v * 10 + dval c + 1) * 10 ^ cs.length ≤ ((v + 1) * 10) * 10 ^ cs.length := by
+          apply Nat.mul_le_mul_right; omega
+        rw [Nat.mul_assoc, Nat.mul_comm 10] at h2
+        omega
 
 /-- the result of `parse_int64_from_buffer` always fits the signed 64-bit range (so the final
     conversion and negation are defined) -/
 theorem parseInt64_in_range (cfg : Cfg) (ds : Bytes) (radix : Nat) (hr : 2 ≤ radix ∧ radix ≤ 36) (neg : Bool) (i : Int)
     (h : parseInt64 cfg ds radix neg = some i) : -9223372036854775808 ≤ i ∧ i ≤ 9223372036854775807 := by
-  sorry
+  -- general tiers: a natural `v ≤ maxVal`
+  have hfin : ∀ v : Nat, v ≤ (if neg then 9223372036854775808 else 9223372036854775807) →
+      (-9223372036854775808 : Int) ≤ (if neg then -(v : Int) else (v : Int)) ∧
+      (if neg then -(v : Int) else (v : Int)) ≤ 9223372036854775807 := by
+    intro v hv
+    cases neg <;> simp only [if_true, if_false, Bool.false_eq_true] at hv ⊢ <;> omega
+  have hmaxle : (if neg then 9223372036854775808 else 9223372036854775807 : Nat) ≤ 9223372036854775808 := by
+    cases neg <;> simp
+  unfold parseInt64 at h
+  simp only [] at h
+  split at h
+  · -- small tier
+    rename_i r hsmall
+    cases h
+    split at hsmall
+    · rename_i hcond
+      simp only [Bool.and_eq_true, beq_iff_eq, decide_eq_true_eq] at hcond
+      have hb := fastSmall_bound cfg.exp ds 0 false
+      have hp : 10 ^ ds.length ≤ 10 ^ 3 := Nat.pow_le_pow_right (by decide) hcond.2
+      generalize fastSmall cfg.exp 0 false ds = p at hsmall hb
+      obtain ⟨v, moved⟩ := p
+      simp only [] at hsmall hb
+      split at hsmall
+      · cases hsmall
+        apply hfin
+        have : v < 1000 := by omega
+        cases neg <;> simp <;> omega
+      · cases hsmall
+    · cases hsmall
+  · split at h
+    · cases h
+    · rename_i v hval
+      cases h
+      apply hfin
+      split at hval
+      · -- radix 10
+        rename_i h10
+        have h10' : radix = 10 := by simpa using h10
+        subst h10'
+        split at hval
+        · cases hval
+        · rename_i v0 rest hsw
+          have h0 := swarLoop_no_wrap _ hmaxle _ 0 ds (Nat.zero_le _) v0 rest hsw
+          exact scalarDigits10_no_wrap cfg.exp _ _ _ hmaxle rfl rfl rest v0 h0 v hval
+      · exact scalarDigits_no_wrap cfg.exp radix _ _ _ hr hmaxle rfl rfl ds 0 (Nat.zero_le _) v hval
 
 end Edn.Proofs
